@@ -12,7 +12,7 @@ fn nontrivial(v: &Verdict) -> bool {
 }
 
 pub fn exec(line: &str, rec: &mut Recorder) {
-    if line.starts_with("msg ") || line.starts_with("rt ") || line.starts_with("asm ") || line.starts_with("resp ") || line.starts_with("tsnew ") || line.starts_with("undec ") || line.starts_with("rtok ") || line.starts_with("svcbenc ") || line.starts_with("ednsrc ") {
+    if line.starts_with("msg ") || line.starts_with("rt ") || line.starts_with("asm ") || line.starts_with("resp ") || line.starts_with("tsnew ") || line.starts_with("undec ") || line.starts_with("rtok ") || line.starts_with("svcbenc ") || line.starts_with("ednsrc ") || line.starts_with("badrec ") {
         crate::props::msgemit::exec(line, rec, |v| v.n_err == 0 && v.len > 40)
     } else {
         encscript::exec(line, rec, nontrivial)
@@ -237,6 +237,14 @@ fn built_in() -> Vec<String> {
         }
         v.push(format!("enc e {}", ops.join(" ")));
     }
+    // coverage review: character data of 255 / 256 / 300 octets (the last two are refused, nothing is
+    // written), and writes in overwrite mode that run past the end of the buffer (`resize`)
+    v.push("enc e cdn:255:61 cdn:256:62 u8:7 cdn:300:63 cdn:0:64 cdn:1:65".into());
+    v.push("enc e max:300 cdn:255:61 cdn:255:62 cdn:256:63 u8:1".into());
+    v.push("enc wo:0000000000:2 sl:aabbccddee u8:1 u16:513".into());
+    v.push("enc wo:00000000000000000000:8 u32:4294967295 sl:0102 cdn:3:7a".into());
+    v.push(format!("enc wo:0000000000000000:6 n:c:F:{}.{} n:c:F:{}.{}", lab("over"), lab("end"), lab("www"), lab("over")));
+    v.push("enc wo:000000:1 max:4 sl:aabbcc sl:dd u8:1".into());
     // case-sensitive matching: ABC.com must not point at abc.com
     v.push(format!(
         "enc e n:c:F:{}.{} n:c:F:{}.{} n:c:F:{}.{} n:l:F:{}.{} n:c:F:{}.{}",
@@ -246,7 +254,7 @@ fn built_in() -> Vec<String> {
 }
 
 pub fn run(o: &Opts, rec: &mut Recorder) {
-    rec.rule = "encoder scripts from a seeded structured generator: 2-170 names per script built from a small family of base domains and prefix labels (shared suffixes, exact repeats, mixed case, a label unique to the script to force new candidates, root, relative names), modes Compressed/Uncompressed/UncompressedLowercase/with_rdata_behavior x canonical_form, record-shaped groups with RDLENGTH place/back-patch, > 64 candidates, > 120 compressed names, a filler moving the offset across 0x3FFF, names of 240-255 octets, one script in ten under a limit of 0-89 octets; a case is non-trivial when at least one name was written with a compression pointer and at least two names were round-trip checked; distinct by case line.  Stage 2: assembled messages of the modelled RDATA types (asm: decode-after-encode equals the assembled value; rt: from_vec/to_vec/from_vec), messages of every RDATA variant from the C01 generator and their mutations (rt); a message case is non-trivial when it round-trips and is longer than 40 octets".into();
+    rec.rule = "encoder scripts from a seeded structured generator: 2-170 names per script built from a small family of base domains and prefix labels (shared suffixes, exact repeats, mixed case, a label unique to the script to force new candidates, root, relative names), modes Compressed/Uncompressed/UncompressedLowercase/with_rdata_behavior x canonical_form, record-shaped groups with RDLENGTH place/back-patch, > 64 candidates, > 120 compressed names, a filler moving the offset across 0x3FFF, names of 240-255 octets, one script in ten under a limit of 0-89 octets; a case is non-trivial when at least one name was written with a compression pointer and at least two names were round-trip checked; distinct by case line.  Stage 2: assembled messages of the modelled RDATA types (asm: decode-after-encode equals the assembled value; rt: from_vec/to_vec/from_vec), messages of every RDATA variant from the C01 generator and their mutations (rt); a message case is non-trivial when it round-trips and is longer than 40 octets.  Directed families in every tier: EDNS options over their whole parameter range, fresh RecordTypeSets, per-type RDATA boundaries, SVCB key ranges, Edns rcode_high against the response code (incl. no Edns, and Edns::emit as second OPT encoder), every code of every enum an RDATA codec maps (CERT, SSHFP, TLSA, DNSKEY, DS, RRSIG, KEY flags, NSEC3, CAA, TSIG names and errors, EDNS codes), the decoder refusals above the RDATA level, messages assembled through every public constructor and Message entry point, messages holding a record that cannot be encoded (badrec), names around offset 0x3FFF".into();
     for l in o.pre_lines.clone() {
         exec(&l, rec);
     }
@@ -290,6 +298,34 @@ pub fn run(o: &Opts, rec: &mut Recorder) {
     for l in directed_edns_rcode() {
         rec.stat("line.directed-edns-rcode");
         exec(&l, rec);
+    }
+    // coverage review: every code of every enum an RDATA codec maps, and the decoder's refusals above
+    // the RDATA level
+    for l in directed_enum_codes() {
+        rec.stat("line.directed-enum-codes");
+        exec(&l, rec);
+    }
+    for l in directed_decode_refusals() {
+        rec.stat("line.directed-decode-refusals");
+        exec(&l, rec);
+    }
+    for l in directed_constructors() {
+        rec.stat("line.directed-constructors");
+        exec(&l, rec);
+    }
+    // values that cannot be encoded (for a reason other than size) inside a whole message: refused as a
+    // whole, no panic, in every section and position (the limits are C03's part)
+    for kind in ["good", "txt256", "hinfo256", "naptr256", "caatag256", "svcborder", "alpn0", "mandatory0"] {
+        for sec in ["an", "ns", "ar"] {
+            for (nb, na) in [(0, 0), (3, 2)] {
+                rec.stat("line.badrec");
+                exec(&format!("badrec {kind} {sec} {nb} {na} L65535"), rec);
+            }
+        }
+    }
+    for kind in ["good", "tsigtime", "tsigmac", "tsigother"] {
+        rec.stat("line.badrec");
+        exec(&format!("badrec {kind} sig 1 1 L65535"), rec);
     }
     // names after the 0x3FFF / 0x4000 boundary of compression pointers, in whole messages
     for l in directed_offset_boundary() {
@@ -693,6 +729,560 @@ fn directed_svcb_key_ranges() -> Vec<String> {
     v
 }
 
+/// A response with the question `example. A`, the given answer records (owner = pointer to the
+/// question name, class IN, TTL 60) and the given raw additional records (complete wire records).
+fn recs_message(id: u16, answers: &[(u16, Vec<u8>)], additionals: &[Vec<u8>]) -> Vec<u8> {
+    let mut b = vec![];
+    b.extend(id.to_be_bytes());
+    b.extend([0x81, 0x80]);
+    b.extend([0, 1]);
+    b.extend((answers.len() as u16).to_be_bytes());
+    b.extend([0, 0]);
+    b.extend((additionals.len() as u16).to_be_bytes());
+    b.extend([7]);
+    b.extend(b"example");
+    b.extend([0, 0, 1, 0, 1]);
+    for (ty, rdata) in answers {
+        b.extend([0xC0, 0x0C]);
+        b.extend(ty.to_be_bytes());
+        b.extend([0, 1, 0, 0, 0, 60]);
+        b.extend((rdata.len() as u16).to_be_bytes());
+        b.extend(rdata);
+    }
+    for a in additionals {
+        b.extend(a);
+    }
+    b
+}
+
+/// a complete wire record: owner, type, class, ttl, rdata
+fn raw_record(owner: &[u8], ty: u16, class: u16, ttl: u32, rdata: &[u8]) -> Vec<u8> {
+    let mut b = owner.to_vec();
+    b.extend(ty.to_be_bytes());
+    b.extend(class.to_be_bytes());
+    b.extend(ttl.to_be_bytes());
+    b.extend((rdata.len() as u16).to_be_bytes());
+    b.extend(rdata);
+    b
+}
+
+fn tsig_rdata(alg: &[u8], time: u64, fudge: u16, mac: &[u8], oid: u16, error: u16, other: &[u8]) -> Vec<u8> {
+    let mut d = alg.to_vec();
+    d.extend(&time.to_be_bytes()[2..]);
+    d.extend(fudge.to_be_bytes());
+    d.extend((mac.len() as u16).to_be_bytes());
+    d.extend(mac);
+    d.extend(oid.to_be_bytes());
+    d.extend(error.to_be_bytes());
+    d.extend((other.len() as u16).to_be_bytes());
+    d.extend(other);
+    d
+}
+
+fn wire_name(s: &str) -> Vec<u8> {
+    let mut b = vec![];
+    for l in s.split('.').filter(|l| !l.is_empty()) {
+        b.push(l.len() as u8);
+        b.extend(l.as_bytes());
+    }
+    b.push(0);
+    b
+}
+
+/// Directed family (coverage review): every CODE of every enumeration that an RDATA codec maps to a
+/// Rust enum and back (`From<u8>` / `From<Enum>` pairs: CERT type and algorithm, SSHFP algorithm and
+/// fingerprint type, TLSA / SMIMEA usage, selector and matching, DNSKEY / CDNSKEY / DS / CDS / RRSIG /
+/// SIG / KEY algorithm and digest type, KEY flags, protocol, NSEC3 hash algorithm, TSIG algorithm names
+/// and error codes, EDNS option codes, CAA flags and tags).  One record per code, many records per
+/// message; every message is a valid encoding, so a refusal is an oracle failure (`rtok`): hickory refuses no code
+/// of any of these enumerations (unknown codes are kept as `Unknown(code)` / `Unassigned(code)`).
+fn directed_enum_codes() -> Vec<String> {
+    let mut v = vec![];
+    let idc = std::cell::Cell::new(0x6000u16);
+    let next_id = || {
+        idc.set(idc.get().wrapping_add(1));
+        idc.get()
+    };
+    let msg = |v: &mut Vec<String>, kind: &str, answers: Vec<(u16, Vec<u8>)>| {
+        // at most 200 records per message
+        for chunk in answers.chunks(200) {
+            v.push(format!("{kind} {}", hex(&recs_message(next_id(), chunk, &[]))));
+        }
+    };
+    let all8: Vec<u8> = (0..=255u8).collect();
+    // CERT: certificate type (u16) and algorithm (u8)
+    let cert_types: Vec<u16> = (0..=12u16).chain([252, 253, 254, 255, 256, 257, 65279, 65280, 65281, 65533, 65534, 65535]).collect();
+    msg(&mut v, "rtok", cert_types.iter().map(|t| (37u16, [&t.to_be_bytes()[..], &[0x12, 0x34, 8, 1, 2, 3]].concat())).collect());
+    msg(&mut v, "rtok", all8.iter().map(|a| (37u16, vec![0, 1, 0xAB, 0xCD, *a, 9, 9])).collect());
+    // SSHFP: algorithm x fingerprint type
+    msg(&mut v, "rtok", all8.iter().map(|a| (44u16, vec![*a, 1, 0xDE, 0xAD])).collect());
+    msg(&mut v, "rtok", all8.iter().map(|f| (44u16, vec![4, *f, 0xBE, 0xEF])).collect());
+    // TLSA / SMIMEA: usage, selector, matching
+    for ty in [52u16, 53] {
+        msg(&mut v, "rtok", all8.iter().map(|x| (ty, vec![*x, 1, 1, 0xAA])).collect());
+        msg(&mut v, "rtok", all8.iter().map(|x| (ty, vec![3, *x, 1, 0xBB])).collect());
+        msg(&mut v, "rtok", all8.iter().map(|x| (ty, vec![3, 1, *x, 0xCC])).collect());
+    }
+    // DNSKEY / CDNSKEY / KEY: algorithm; flags one bit and two bits at a time; KEY protocol
+    for ty in [48u16, 60] {
+        msg(&mut v, "rtok", all8.iter().map(|a| (ty, vec![1, 0, 3, *a, 1, 2, 3, 4])).collect());
+        let mut flags: Vec<u16> = vec![0, 0xFFFF, 0x0100, 0x0101, 0x0080, 0x0180, 0x0181];
+        for i in 0..16 {
+            flags.push(1 << i);
+            flags.push(!(1u16 << i));
+        }
+        msg(&mut v, "rtok", flags.iter().map(|f| (ty, [&f.to_be_bytes()[..], &[3, 8, 9, 9, 9]].concat())).collect());
+        // protocol octet (RFC 4034: must be 3)
+        for p in [0u8, 1, 2, 3, 4, 255] {
+            msg(&mut v, if p == 3 { "rtok" } else { "undec" }, vec![(ty, vec![1, 0, p, 8, 7, 7])]);
+        }
+    }
+    msg(&mut v, "rtok", all8.iter().map(|a| (25u16, vec![0, 0, 3, *a, 1, 2, 3, 4])).collect());
+    msg(&mut v, "rtok", all8.iter().map(|p| (25u16, vec![0, 0, *p, 8, 5, 6])).collect());
+    {
+        // KEY flags: A/C (bits 0-1), NAMTYP (bits 6-7) and SIG (bits 12-15) are kept, every other bit is
+        // reserved (or the unsupported extension flag) and refused: ALL 256 valid words in one message,
+        // every word with one invalid bit on its own
+        let mut valid: Vec<u16> = vec![];
+        for ac in 0..4u16 {
+            for nt in 0..4u16 {
+                for sg in 0..16u16 {
+                    valid.push((ac << 14) | (nt << 8) | sg);
+                }
+            }
+        }
+        msg(&mut v, "rtok", valid.iter().map(|f| (25u16, [&f.to_be_bytes()[..], &[3, 8, 1, 1]].concat())).collect());
+        for bit in [0x2000u16, 0x1000, 0x0800, 0x0400, 0x0080, 0x0040, 0x0020, 0x0010] {
+            for base in [0u16, 0xC30F] {
+                msg(&mut v, "undec", vec![(25u16, [&(base | bit).to_be_bytes()[..], &[3, 8, 1, 1]].concat())]);
+            }
+        }
+        msg(&mut v, "undec", vec![(25u16, vec![0xFF, 0xFF, 3, 8, 1, 1])]);
+    }
+    // DS / CDS: algorithm, digest type
+    for ty in [43u16, 59] {
+        msg(&mut v, "rtok", all8.iter().map(|a| (ty, vec![0x30, 0x39, *a, 2, 0xAA, 0xBB])).collect());
+        msg(&mut v, "rtok", all8.iter().map(|d| (ty, vec![0x30, 0x39, 8, *d, 0xCC, 0xDD])).collect());
+    }
+    // RRSIG / SIG: algorithm; type covered at the boundaries of RecordType
+    for ty in [46u16, 24] {
+        let sig = |tc: u16, alg: u8| -> Vec<u8> {
+            let mut d = tc.to_be_bytes().to_vec();
+            d.extend([alg, 2]);
+            d.extend(300u32.to_be_bytes());
+            d.extend(0x7000_0000u32.to_be_bytes());
+            d.extend(0x6000_0000u32.to_be_bytes());
+            d.extend([0x12, 0x34]);
+            d.extend(wire_name("signer.example"));
+            d.extend([1, 2, 3, 4]);
+            d
+        };
+        let tcs: Vec<u16> = (0..=70u16).chain([99, 249, 250, 251, 252, 253, 254, 255, 256, 257, 258, 32768, 32769, 65279, 65280, 65534, 65535]).collect();
+        if ty == 24 {
+            // SIG is only accepted in the additional section
+            let own = [0xC0u8, 0x0C];
+            for chunk in all8.chunks(128) {
+                let id = next_id();
+                let adds: Vec<Vec<u8>> = chunk.iter().map(|a| raw_record(&own, 24, 255, 0, &sig(0, *a))).collect();
+                v.push(format!("rtok {}", hex(&recs_message(id, &[], &adds))));
+            }
+            let id = next_id();
+            let adds: Vec<Vec<u8>> = tcs.iter().map(|t| raw_record(&own, 24, 255, 0, &sig(*t, 8))).collect();
+            v.push(format!("rtok {}", hex(&recs_message(id, &[], &adds))));
+            continue;
+        }
+        msg(&mut v, "rtok", all8.iter().map(|a| (ty, sig(1, *a))).collect());
+        msg(&mut v, "rtok", tcs.iter().map(|t| (ty, sig(*t, 8))).collect());
+    }
+    // NSEC3 / NSEC3PARAM: hash algorithm (only 1 is defined), flags
+    for h in [0u8, 1, 2, 3, 127, 128, 254, 255] {
+        let kind = if h == 1 { "rtok" } else { "undec" };
+        msg(&mut v, kind, vec![(50u16, vec![h, 0, 0, 5, 2, 0xAB, 0xCD, 4, 1, 2, 3, 4, 0, 1, 0x40])]);
+        msg(&mut v, kind, vec![(51u16, vec![h, 0, 0, 5, 2, 0xAB, 0xCD])]);
+    }
+    for f in [0u8, 1, 2, 3, 0x80, 0xFE, 0xFF] {
+        let kind = if f <= 1 { "rtok" } else { "undec" };
+        msg(&mut v, kind, vec![(50u16, vec![1, f, 0xFF, 0xFF, 0, 1, 9, 0, 1, 0x40])]);
+        msg(&mut v, kind, vec![(51u16, vec![1, f, 0xFF, 0xFF, 0])]);
+    }
+    // CAA: flags (issuer critical = bit 7, the rest reserved), tags in every spelling
+    msg(&mut v, "rtok", all8.iter().map(|f| (257u16, [&[*f, 5][..], b"issue", b"ca.example"].concat())).collect());
+    for tag in ["issue", "ISSUE", "Issue", "issuewild", "IssueWild", "iodef", "IODEF", "contactemail", "x", "a1", "issuemail", "0"] {
+        for val in [&b""[..], b";", b"ca.example; k=v", b"https://iodef.example/", b"mailto:a@example", b"\xff\x00"] {
+            msg(&mut v, "rtok", vec![(257u16, [&[0u8, tag.len() as u8][..], tag.as_bytes(), val].concat())]);
+        }
+    }
+    // TSIG: every algorithm name (RFC 8945 section 6 + gss-tsig + the MD5 registry name), spellings,
+    // unknown names; error codes
+    let key = wire_name("key.example");
+    let algs = [
+        "HMAC-MD5.SIG-ALG.REG.INT", "hmac-md5.sig-alg.reg.int", "gss-tsig", "GSS-TSIG", "hmac-sha1", "HMAC-SHA1", "hmac-sha224", "hmac-sha256",
+        "HMAC-SHA256", "Hmac-Sha256", "hmac-sha256-128", "hmac-sha384", "hmac-sha384-192", "hmac-sha512", "hmac-sha512-256", "hmac-sha3",
+        "unknown-alg.example", "hmac-sha256.example", "a",
+    ];
+    for a in algs {
+        let id = next_id();
+        let rd = tsig_rdata(&wire_name(a), 0x0000_6512_3456, 300, &[0xAA; 32], id, 0, &[]);
+        v.push(format!("rtok {}", hex(&recs_message(id, &[(1, vec![192, 0, 2, 1])], &[raw_record(&key, 250, 255, 0, &rd)]))));
+    }
+    // the root as algorithm name
+    let id = next_id();
+    v.push(format!("rtok {}", hex(&recs_message(id, &[], &[raw_record(&key, 250, 255, 0, &tsig_rdata(&[0], 1, 2, &[], id, 0, &[]))]))));
+    for e in (0..=25u16).chain([255, 256, 3841, 65534, 65535]) {
+        let id = next_id();
+        let other: &[u8] = if e == 18 { &[0, 0, 0x65, 0x12, 0x34, 0x60] } else { &[] };
+        let rd = tsig_rdata(&wire_name("hmac-sha256"), 0xFFFF_FFFF_FFFF, 65535, &[1, 2, 3], 0xFFFF, e, other);
+        v.push(format!("rtok {}", hex(&recs_message(id, &[], &[raw_record(&key, 250, 255, 0, &rd)]))));
+    }
+    // EDNS option codes 0..=20 and the ends of the range, each with an empty and a 3-octet payload
+    // (whether a payload is acceptable depends on the code: `rt`)
+    for c in (0..=20u16).chain([26946, 65000, 65001, 65534, 65535]) {
+        for data in [&[][..], &[8, 13, 15][..], &[0, 1, 24, 0, 192, 0, 2][..]] {
+            let id = next_id();
+            v.push(format!("rt {}", hex(&opt_message(id, &opt_option(c, data)))));
+        }
+    }
+    v
+}
+
+/// Directed family (coverage review): messages the DECODER must refuse for reasons above the RDATA
+/// codecs — a record after the TSIG, a second OPT, an OPT whose owner is not the root, type 0 with
+/// RDATA, OPT / SIG / TSIG outside the additional section, an empty RDATA outside an UPDATE, a name of
+/// more than 255 octets assembled through pointers, a pointer chain whose labels overlap, and the three
+/// length refusals of `TSIG::read_data`, NSEC3's salt length, an OPT option longer than the RDATA.
+fn directed_decode_refusals() -> Vec<String> {
+    let mut v = vec![];
+    let idc = std::cell::Cell::new(0x6800u16);
+    let next_id = || {
+        idc.set(idc.get().wrapping_add(1));
+        idc.get()
+    };
+    let key = wire_name("key.example");
+    let tsig = raw_record(&key, 250, 255, 0, &tsig_rdata(&wire_name("hmac-sha256"), 1, 300, &[7; 4], 1, 0, &[]));
+    let opt = raw_record(&[0], 41, 1232, 0, &[]);
+    let a = raw_record(&[0xC0, 0x0C], 1, 1, 60, &[192, 0, 2, 1]);
+    let line = |v: &mut Vec<String>, kind: &str, ans: &[(u16, Vec<u8>)], add: &[Vec<u8>]| {
+        v.push(format!("{kind} {}", hex(&recs_message(next_id(), ans, add))));
+    };
+    // controls: the same building blocks in a valid arrangement
+    line(&mut v, "rtok", &[(1, vec![192, 0, 2, 1])], &[a.clone(), opt.clone(), tsig.clone()]);
+    line(&mut v, "rtok", &[], &[opt.clone(), a.clone(), tsig.clone()]);
+    // a record after the TSIG; two TSIGs; a second OPT
+    line(&mut v, "undec", &[], &[tsig.clone(), a.clone()]);
+    line(&mut v, "undec", &[], &[tsig.clone(), opt.clone()]);
+    line(&mut v, "undec", &[], &[tsig.clone(), tsig.clone()]);
+    line(&mut v, "undec", &[], &[opt.clone(), opt.clone()]);
+    line(&mut v, "undec", &[], &[opt.clone(), a.clone(), raw_record(&[0], 41, 512, 0, &[0, 3, 0, 0])]);
+    // an OPT whose owner is not the root (a label; a pointer to the question name)
+    line(&mut v, "undec", &[], &[raw_record(&wire_name("x"), 41, 1232, 0, &[])]);
+    line(&mut v, "undec", &[], &[raw_record(&[0xC0, 0x0C], 41, 1232, 0, &[])]);
+    // ... but a pointer to a root octet is the root
+    {
+        let mut m = recs_message(next_id(), &[], &[]);
+        // the question name `example.` ends with its root octet at offset 20
+        m[11] = 1;
+        m.extend(raw_record(&[0xC0, 20], 41, 1232, 0, &[]));
+        v.push(format!("rtok {}", hex(&m)));
+    }
+    // type 0 with RDATA; type 0 / type 1 with empty RDATA in a QUERY (only an UPDATE may carry those)
+    line(&mut v, "undec", &[(0, vec![1, 2, 3])], &[]);
+    line(&mut v, "undec", &[(0, vec![])], &[]);
+    line(&mut v, "undec", &[(1, vec![])], &[]);
+    // OPT / SIG / TSIG in the answer section
+    line(&mut v, "undec", &[(41, vec![])], &[]);
+    line(&mut v, "undec", &[(250, tsig_rdata(&wire_name("hmac-sha256"), 1, 300, &[7; 4], 1, 0, &[]))], &[]);
+    {
+        let mut sig = vec![0, 0, 8, 0];
+        sig.extend([0u8; 12]);
+        sig.extend([0, 1]);
+        sig.extend(wire_name("s"));
+        sig.extend([1, 2]);
+        line(&mut v, "undec", &[(24, sig.clone())], &[]);
+        // SIG(0) in the additional section is an ordinary record
+        line(&mut v, "rtok", &[], &[raw_record(&[0], 24, 255, 0, &sig)]);
+    }
+    // TSIG::read_data: MAC size beyond the RDATA, other-length not ending at the RDATA's end (short, long)
+    {
+        let mut rd = wire_name("hmac-sha256");
+        rd.extend([0, 0, 0, 0, 0, 1, 1, 44, 0, 9, 1, 2, 3, 4, 0, 1, 0, 0, 0, 0]);
+        line(&mut v, "undec", &[], &[raw_record(&key, 250, 255, 0, &rd)]);
+        let good = tsig_rdata(&wire_name("hmac-sha256"), 1, 300, &[7; 4], 1, 0, &[9, 9]);
+        let mut short = good.clone();
+        let n = short.len();
+        short[n - 3] = 1;
+        line(&mut v, "undec", &[], &[raw_record(&key, 250, 255, 0, &short)]);
+        let mut long = good.clone();
+        long[n - 3] = 3;
+        line(&mut v, "undec", &[], &[raw_record(&key, 250, 255, 0, &long)]);
+        let mut trailing = good.clone();
+        trailing.push(0);
+        line(&mut v, "undec", &[], &[raw_record(&key, 250, 255, 0, &trailing)]);
+        line(&mut v, "rtok", &[], &[raw_record(&key, 250, 255, 0, &good)]);
+    }
+    // NSEC3: salt length beyond the RDATA; OPT: option length beyond the RDATA
+    line(&mut v, "undec", &[(50, vec![1, 0, 0, 1, 9, 1, 2])], &[]);
+    line(&mut v, "undec", &[(51, vec![1, 0, 0, 1, 9, 1, 2])], &[]);
+    line(&mut v, "undec", &[], &[raw_record(&[0], 41, 1232, 0, &[0, 3, 0, 9, 1, 2])]);
+    // names: 255 octets through a pointer is the longest name; one label more is refused
+    {
+        // answer 1: a NULL record whose RDATA holds a 3 x 63 + 58 label tail ending in the root (249 octets)
+        let mut tail = vec![];
+        for (i, n) in [63usize, 63, 63, 55].iter().enumerate() {
+            tail.push(*n as u8);
+            tail.extend(std::iter::repeat(b'a' + i as u8).take(*n));
+        }
+        tail.push(0);
+        assert_eq!(tail.len(), 249);
+        // offset of that RDATA: header 12 + question 13 + owner 2 + fixed 10
+        let off = 12 + 13 + 2 + 10;
+        for extra in [4usize, 5, 6, 7] {
+            // a CNAME whose target is one label of `extra` octets + a pointer to the tail:
+            // 1 + extra + 249 octets in all
+            let mut target = vec![extra as u8];
+            target.extend(std::iter::repeat(b'z').take(extra));
+            target.extend([0xC0 | (off >> 8) as u8, off as u8]);
+            let kind = if 1 + extra + 249 <= 255 { "rtok" } else { "undec" };
+            line(&mut v, kind, &[(10, tail.clone()), (5, target)], &[]);
+        }
+    }
+    // a pointer chain must move strictly backwards: a label that runs into the place the pointer came from
+    {
+        // RDATA of a CNAME at offset 37: `\x01a` then a pointer to offset 37 itself (loop), to 38, and forward
+        for (kind, ptr) in [("undec", 37u16), ("undec", 38), ("undec", 39), ("undec", 60), ("rtok", 12)] {
+            let target = vec![1, b'a', 0xC0 | (ptr >> 8) as u8, ptr as u8];
+            line(&mut v, kind, &[(5, target)], &[]);
+        }
+        // a pointer to a label that extends up to / over the pointer's own position
+        // answer 1 (NULL) holds `\x05abcde` without a terminator right before the next record's owner
+        let frag = vec![3, b'a', b'b', b'c'];
+        // owner of the 2nd record = pointer to the fragment: the label is read, then the decoder stands
+        // on the pointer itself
+        let mut m = recs_message(next_id(), &[(10, frag)], &[]);
+        m[7] = 2;
+        m.extend(raw_record(&[0xC0, 37], 1, 1, 60, &[192, 0, 2, 9]));
+        v.push(format!("undec {}", hex(&m)));
+    }
+    v
+}
+
+/// Directed family (coverage review): messages assembled through the OTHER public entry points — the
+/// constructors of every RDATA type (`CAA::new_issue / new_issuewild / new_iodef`, `CERT::new`,
+/// `CSYNC::new`, `HINFO::new`, `TXT::new`, `TLSA::new`, `SMIMEA::new`, `NSEC::new_cover_self`, `NSEC3::new`,
+/// `DNSKEY::new`, `CDNSKEY::new`, `RRSIG::from_sig`, `TSIG::new` + `set_mac` + `make_tsig_record`,
+/// `ClientSubnet::new` and its setters, `OPT::insert / remove`, `Edns::enable_dnssec /
+/// set_default_algorithms`, the `From<…> for RData` conversions, `Record::into_record_of_rdata`) and
+/// the other ways to fill a `Message` (`Message::query / response / error_msg`, `add_queries`,
+/// `add_answers`, `insert_answers`, …, `into_response`, `truncate`).  Every message is an `asm` line (the
+/// assembled value must come back from decode-after-encode) and an `rt` line (model-compared).
+fn directed_constructors() -> Vec<String> {
+    use crate::props::msgemit::{asm_dump, fnv1a};
+    use hickory_proto::dnssec::rdata::key::{KeyTrust, KeyUsage, Protocol as KeyProtocol, UpdateScope};
+    use hickory_proto::dnssec::rdata::{SigInput, CDNSKEY, CDS, DNSKEY, DS, KEY, NSEC, NSEC3, NSEC3PARAM, RRSIG};
+    use hickory_proto::dnssec::{Algorithm, DigestType, Nsec3HashAlgorithm, PublicKeyBuf};
+    use hickory_proto::op::{Edns, Message, MessageType, OpCode, Query, ResponseCode};
+    use hickory_proto::rr::rdata::caa::KeyValue;
+    use hickory_proto::rr::rdata::cert::{Algorithm as CertAlgorithm, CertType};
+    use hickory_proto::rr::rdata::opt::{ClientSubnet, EdnsCode, EdnsOption};
+    use hickory_proto::rr::rdata::sshfp;
+    use hickory_proto::rr::rdata::svcb::{Alpn, IpHint, Mandatory, SvcParamKey, SvcParamValue};
+    use hickory_proto::rr::rdata::tlsa::{CertUsage, Matching, Selector};
+    use hickory_proto::rr::rdata::tsig::{make_tsig_record, TsigAlgorithm, TsigError, TSIG};
+    use hickory_proto::rr::rdata::{A, AAAA, CAA, CERT, CSYNC, HINFO, HTTPS, MX, NAPTR, NS, OPENPGPKEY, SMIMEA, SOA, SRV, SSHFP, SVCB, TLSA, TXT};
+    use hickory_proto::rr::{DNSClass, Name, RData, Record, RecordType, SerialNumber};
+    let nm = |s: &str| Name::from_ascii(s).unwrap();
+    let rr = |owner: &str, ttl: u32, d: RData| Record::from_rdata(nm(owner), ttl, d);
+    let mut out: Vec<Message> = vec![];
+
+    // ---- every RDATA constructor, one record each, spread over the three sections
+    let records: Vec<Record> = vec![
+        rr("a.example.", 1, RData::from(std::net::IpAddr::from([192, 0, 2, 1]))),
+        rr("a.example.", 2, RData::from(std::net::IpAddr::from([0x2001, 0xdb8, 0, 0, 0, 0, 0, 1]))),
+        rr("a.example.", 3, RData::from(std::net::Ipv4Addr::new(203, 0, 113, 9))),
+        rr("a.example.", 4, RData::from(std::net::Ipv6Addr::LOCALHOST)),
+        rr("a.example.", 5, RData::A(A::new(10, 0, 0, 1))),
+        rr("a.example.", 6, RData::AAAA(AAAA::new(0xfe80, 0, 0, 0, 0, 0, 0, 2))),
+        rr("caa.example.", 7, RData::CAA(CAA::new_issue(true, Some(nm("ca.example.net.")), vec![KeyValue::new("account", "230123"), KeyValue::new("k", "v")]))),
+        rr("caa.example.", 8, RData::CAA(CAA::new_issue(false, None, vec![]))),
+        rr("caa.example.", 9, RData::CAA(CAA::new_issue(false, Some(nm("ca.example.net.")), vec![]))),
+        rr("caa.example.", 10, RData::CAA(CAA::new_issuewild(true, None, vec![KeyValue::new("policy", "ev")]))),
+        rr("caa.example.", 11, RData::CAA(CAA::new_issuewild(false, Some(nm("wild.example.")), vec![]))),
+        rr("caa.example.", 12, RData::CAA(CAA::new_iodef(true, "https://iodef.example.com/report?x=1".parse().unwrap()))),
+        rr("caa.example.", 13, RData::CAA(CAA::new_iodef(false, "mailto:security@example.com".parse().unwrap()))),
+        rr("cert.example.", 14, RData::CERT(CERT::new(CertType::PKIX, 12345, CertAlgorithm::RSASHA256, vec![1, 2, 3, 4, 5]))),
+        rr("cert.example.", 15, RData::CERT(CERT::new(CertType::Experimental(65281), 0, CertAlgorithm::Unassigned(200), vec![0]))),
+        rr("csync.example.", 16, RData::CSYNC(CSYNC::new(2026010101, true, false, [RecordType::A, RecordType::NS, RecordType::AAAA]))),
+        rr("csync.example.", 17, RData::CSYNC(CSYNC::new(0, false, true, [RecordType::CAA, RecordType::Unknown(65280)]))),
+        rr("hinfo.example.", 18, RData::HINFO(HINFO::new("Intel-386".to_string(), "Linux".to_string()))),
+        rr("hinfo.example.", 19, RData::HINFO(HINFO::new(String::new(), "x".repeat(255)))),
+        rr("txt.example.", 20, RData::TXT(TXT::new(vec!["v=spf1 -all".to_string(), String::new(), "y".repeat(255)]))),
+        rr("_443._tcp.example.", 21, RData::TLSA(TLSA::new(CertUsage::DaneEe, Selector::Spki, Matching::Sha256, vec![0xAB; 32]))),
+        rr("_443._tcp.example.", 22, RData::TLSA(TLSA::new(CertUsage::Unassigned(77), Selector::Private, Matching::Unassigned(9), vec![1]))),
+        rr("user._smimecert.example.", 23, RData::SMIMEA(SMIMEA::new(CertUsage::PkixTa, Selector::Full, Matching::Raw, vec![0x30, 0x82, 1, 2]))),
+        rr("host.example.", 24, RData::SSHFP(SSHFP::new(sshfp::Algorithm::Ed25519, sshfp::FingerprintType::SHA256, vec![0xCD; 32]))),
+        rr("host.example.", 25, RData::SSHFP(SSHFP::new(sshfp::Algorithm::Ed448, sshfp::FingerprintType::Unassigned(7), vec![]))),
+        rr("pgp.example.", 26, RData::OPENPGPKEY(OPENPGPKEY::new(vec![0x99, 1, 13, 4]))),
+        Record::from_rdata(Name::from(std::net::Ipv4Addr::new(192, 0, 2, 255)), 27, RData::PTR(hickory_proto::rr::rdata::PTR(nm("host.example.")))),
+        Record::from_rdata(Name::from(std::net::IpAddr::from([0x2001, 0xdb8, 0, 0, 0, 0xabcd, 0, 0x12])), 27, RData::PTR(hickory_proto::rr::rdata::PTR(Name::from(std::net::Ipv6Addr::LOCALHOST)))),
+        rr("mx.example.", 27, RData::MX(MX::new(10, nm("mail.example.")))),
+        rr("_sip._udp.example.", 28, RData::SRV(SRV::new(1, 2, 5060, nm("sip.example.")))),
+        rr("example.", 29, RData::SOA(SOA::new(nm("ns.example."), nm("admin.example."), 1, i32::MAX, i32::MIN, -1, u32::MAX))),
+        rr("naptr.example.", 30, RData::NAPTR(NAPTR::new(100, 10, b"U".to_vec().into_boxed_slice(), b"E2U+sip".to_vec().into_boxed_slice(), b"!^.*$!sip:info@example.com!".to_vec().into_boxed_slice(), Name::root()))),
+        rr("svc.example.", 31, RData::SVCB(SVCB::new(1, nm("svc-target.example."), vec![
+            (SvcParamKey::Mandatory, SvcParamValue::Mandatory(Mandatory(vec![SvcParamKey::Alpn, SvcParamKey::Port]))),
+            (SvcParamKey::Alpn, SvcParamValue::Alpn(Alpn(vec!["h2".to_string(), "h3".to_string()]))),
+            (SvcParamKey::Port, SvcParamValue::Port(8443)),
+            (SvcParamKey::Ipv4Hint, SvcParamValue::Ipv4Hint(IpHint(vec![A::new(192, 0, 2, 1), A::new(192, 0, 2, 2)]))),
+        ]))),
+        rr("svc.example.", 32, RData::HTTPS(HTTPS(SVCB::new(0, nm("alias.example."), vec![])))),
+        rr("example.", 33, RData::from(DNSKEY::new(true, true, false, PublicKeyBuf::new(vec![7; 32], Algorithm::ED25519)))),
+        rr("example.", 34, RData::from(DNSKEY::new(false, false, true, PublicKeyBuf::new(vec![3, 1, 0, 1, 9], Algorithm::RSASHA256)))),
+        rr("example.", 35, RData::from(CDNSKEY::new(true, false, false, Some(Algorithm::ECDSAP256SHA256), vec![5; 64]))),
+        rr("example.", 36, RData::from(CDNSKEY::new(false, false, false, None, vec![0]))),
+        rr("example.", 37, RData::from(hickory_proto::dnssec::rdata::DNSSECRData::DS(DS::new(60485, Algorithm::RSASHA1, DigestType::SHA1, vec![0x2B; 20])))),
+        rr("example.", 38, RData::from(CDS::new(0, None, DigestType::Unknown(0), vec![0]))),
+        rr("example.", 39, RData::from(CDS::new(1, Some(Algorithm::ED25519), DigestType::SHA384, vec![1; 48]))),
+        rr("example.", 40, RData::from(KEY::new(KeyTrust::DoNotTrust, KeyUsage::Entity, UpdateScope { zone: true, strong: false, unique: true, general: false }, KeyProtocol::TLS, Algorithm::ED25519, vec![1, 2, 3]))),
+        rr("example.", 41, RData::from(KEY::new(KeyTrust::NotPrivate, KeyUsage::Zone, UpdateScope::default(), KeyProtocol::Other(200), Algorithm::Unknown(77), vec![]))),
+        rr("a.example.", 42, RData::from(hickory_proto::dnssec::rdata::DNSSECRData::NSEC(NSEC::new_cover_self(nm("b.example."), [RecordType::A, RecordType::MX])))),
+        rr("a.example.", 43, RData::from(hickory_proto::dnssec::rdata::DNSSECRData::NSEC(NSEC::new(nm("c.example."), [RecordType::Unknown(65535), RecordType::A])))),
+        rr("0p9mhaveqvm6t7vbl5lop2u3t2rp3tom.example.", 44, RData::from(hickory_proto::dnssec::rdata::DNSSECRData::NSEC3(NSEC3::new(Nsec3HashAlgorithm::SHA1, true, 12, vec![0xAA, 0xBB, 0xCC, 0xDD], vec![0x11; 20], [RecordType::A, RecordType::RRSIG])))),
+        rr("example.", 45, RData::from(hickory_proto::dnssec::rdata::DNSSECRData::NSEC3PARAM(NSEC3PARAM::new(Nsec3HashAlgorithm::SHA1, false, 0, vec![])))),
+        rr("a.example.", 46, RData::from(hickory_proto::dnssec::rdata::DNSSECRData::RRSIG(RRSIG::from_sig(
+            SigInput {
+                type_covered: RecordType::A,
+                algorithm: Algorithm::ED25519,
+                num_labels: 2,
+                original_ttl: 3600,
+                sig_expiration: SerialNumber::new(u32::MAX),
+                sig_inception: SerialNumber::new(0),
+                key_tag: 65535,
+                signer_name: nm("Example."),
+            },
+            vec![0xEE; 64],
+        )))),
+    ];
+    for (i, chunk) in records.chunks(6).enumerate() {
+        // three ways to fill the sections
+        let mut m = match i % 3 {
+            0 => Message::query(),
+            1 => Message::response(0x7100 + i as u16, OpCode::Query),
+            _ => Message::error_msg(0x7100 + i as u16, OpCode::Query, ResponseCode::NXDomain),
+        };
+        m.metadata.id = 0x7100 + i as u16;
+        m.add_queries(vec![Query::new(nm("example."), RecordType::ANY)]);
+        match i % 3 {
+            0 => {
+                m.add_answers(chunk[..2].to_vec());
+                m.add_authorities(chunk[2..4].to_vec());
+                m.add_additionals(chunk[4..].to_vec());
+            }
+            1 => {
+                m.insert_answers(chunk[..2].to_vec());
+                m.insert_authorities(chunk[2..4].to_vec());
+                m.insert_additionals(chunk[4..].to_vec());
+            }
+            _ => {
+                for x in &chunk[..2] {
+                    m.add_answer(x.clone().into_record_of_rdata());
+                }
+                m.add_authorities(chunk[2..4].iter().cloned());
+                m.add_additionals(chunk[4..].iter().cloned());
+            }
+        }
+        out.push(m);
+    }
+    // all of them in one message (shared owner names, all three sections)
+    {
+        let mut m = Message::response(0x7180, OpCode::Query);
+        m.add_queries([Query::new(nm("example."), RecordType::ANY), Query::new(nm("a.example."), RecordType::A)]);
+        m.insert_answers(records[..20].to_vec());
+        m.insert_authorities(records[20..34].to_vec());
+        m.insert_additionals(records[34..].to_vec());
+        out.push(m);
+    }
+    // ---- EDNS through the other setters; options through insert / remove; ClientSubnet constructors
+    {
+        let mut e = Edns::new();
+        e.enable_dnssec();
+        e.set_default_algorithms();
+        let mut cs = ClientSubnet::new(std::net::IpAddr::from([198, 51, 100, 0]), 24, 0);
+        cs.set_scope_prefix(16);
+        e.options_mut().insert(EdnsOption::Subnet(cs));
+        e.options_mut().insert(EdnsOption::Unknown(65001, vec![1, 2, 3]));
+        e.options_mut().insert(EdnsOption::Unknown(9, vec![]));
+        e.options_mut().remove(EdnsCode::Expire);
+        assert!(e.option(EdnsCode::Subnet).is_some() && e.option(EdnsCode::Expire).is_none());
+        let mut m = Message::query();
+        m.metadata.id = 0x7190;
+        m.add_query(Query::new(nm("edns.example."), RecordType::A));
+        m.set_edns(e);
+        out.push(m.clone());
+        // the response made from the query, and its truncated form
+        let mut resp = m.clone().into_response();
+        resp.add_answer(rr("edns.example.", 60, RData::A(A::new(192, 0, 2, 7))));
+        out.push(resp.clone());
+        out.push(resp.truncate());
+        let mut cs6 = ClientSubnet::new(std::net::IpAddr::from([0x2001, 0xdb8, 0xffff, 0, 0, 0, 0, 1]), 48, 0);
+        cs6.set_source_prefix(56);
+        cs6.set_addr(std::net::IpAddr::from([0x2001, 0xdb8, 0xff00, 0, 0, 0, 0, 0]));
+        let net: ipnet::IpNet = "203.0.113.0/24".parse().unwrap();
+        for sub in [cs6, ClientSubnet::from(net), ClientSubnet::new(std::net::IpAddr::from([0, 0, 0, 0]), 0, 0)] {
+            let mut e = Edns::new();
+            e.set_max_payload(4096);
+            e.options_mut().insert(EdnsOption::Subnet(sub));
+            let mut m = Message::response(0x7191 + out.len() as u16, OpCode::Query);
+            m.set_edns(e);
+            out.push(m);
+        }
+    }
+    // ---- error_msg with every kind of response code (extended ones need an Edns to carry the high bits)
+    for (i, rc) in [ResponseCode::FormErr, ResponseCode::ServFail, ResponseCode::Refused, ResponseCode::NotAuth, ResponseCode::BADKEY, ResponseCode::BADCOOKIE, ResponseCode::Unknown(4095)]
+        .into_iter()
+        .enumerate()
+    {
+        let mut m = Message::error_msg(0x71C0 + i as u16, if i % 2 == 0 { OpCode::Query } else { OpCode::Update }, rc);
+        m.add_query(Query::new(nm("err.example."), RecordType::SOA));
+        if rc.high() > 0 {
+            // (the Edns value's own rcode_high is overwritten by emit; mirrored here so that the
+            // assembled value equals what comes back)
+            let mut e = Edns::new();
+            e.set_rcode_high(rc.high());
+            m.set_edns(e);
+        }
+        out.push(m);
+    }
+    // ---- TSIG through `TSIG::new`, `set_mac`, `make_tsig_record`
+    for (i, (alg, err, other)) in [
+        (TsigAlgorithm::HmacSha256, None, vec![]),
+        (TsigAlgorithm::HmacSha512_256, Some(TsigError::BadTime), vec![0, 0, 0x65, 0x43, 0x21, 0x00]),
+        (TsigAlgorithm::Unknown(nm("custom-alg.example")), Some(TsigError::BadTrunc), vec![]),
+        (TsigAlgorithm::Gss, Some(TsigError::Unknown(4000)), vec![9]),
+    ]
+    .into_iter()
+    .enumerate()
+    {
+        let t = TSIG::new(alg, 0xFFFF_FFFF_FFFF, 300, vec![], 0x71D0 + i as u16, err, other).set_mac(vec![0x5A; 20 + i]);
+        let mut m = Message::response(0x71D0 + i as u16, OpCode::Update);
+        m.add_query(Query::new(nm("example."), RecordType::SOA));
+        m.add_additional(rr("x.example.", 0, RData::A(A::new(192, 0, 2, 3))));
+        m.set_edns(Edns::new());
+        m.set_signature(Box::new(make_tsig_record(nm("Key.Example."), t)));
+        out.push(m);
+    }
+    let _ = (NS(Name::root()), DNSClass::IN, MessageType::Query);
+    let mut v = vec![];
+    for m in out {
+        match m.to_vec() {
+            Ok(bytes) => {
+                v.push(format!("asm {} {}", hex(&bytes), fnv1a(asm_dump(&m).as_bytes())));
+                v.push(format!("rt {}", hex(&bytes)));
+            }
+            Err(e) => v.push(format!("asm-emit-failed {e}")),
+        }
+    }
+    v
+}
+
 /// Directed family: the Edns VALUE handed to the message carries an rcode_high DIFFERENT from the high
 /// bits of the message's response code (set through the public API, or taken from a decoded message);
 /// and flags / version / DO / max_payload at their extremes.  `emit_message_parts` must overwrite the
@@ -706,6 +1296,12 @@ fn directed_edns_rcode() -> Vec<String> {
                     v.push(format!("ednsrc {via} {low} {high} {stale} 0 1 0 1232"));
                 }
             }
+        }
+    }
+    // no Edns value at all: the high bits of an extended response code are dropped (with a warning)
+    for high in [0u8, 1, 0x0F, 0xF0, 0xFF] {
+        for low in [0u8, 3, 15] {
+            v.push(format!("ednsrc n {low} {high} 0 0 0 0 512"));
         }
     }
     for version in [0u8, 1, 255] {
